@@ -718,3 +718,106 @@ pub fn harnesses() -> Vec<HarnessDef> {
     Box::new(|t| c18_chain(if t { 2 } else { 1 }, 4)), 600_000, 40_000_000, true);
   v
 }
+
+// ------------------------------------------------------------------ C17: composite subscriptions
+
+#[derive(Clone, Copy)]
+struct ChildSub {
+  id: usize,
+}
+impl Subscription for ChildSub {
+  fn unsubscribe(self) {
+    world::set_counter(30 + self.id, 1);
+  }
+  fn is_closed(&self) -> bool {
+    world::counter(30 + self.id) != 0
+  }
+}
+
+fn c17_composite(threads_form: bool, nops: usize) {
+  let mut local = MultiSubscription::default();
+  let mut shared = MultiSubscriptionThreads::default();
+  let mut children = 0usize;
+  let mut unsubscribed = false;
+  let mut closed_seen = false;
+  e::note(if threads_form { "MultiSubscriptionThreads".to_string() } else { "MultiSubscription".to_string() });
+  for _ in 0..nops {
+    match e::choose(5) {
+      0 => {
+        if children >= 3 {
+          e::prune();
+        }
+        let id = children;
+        children += 1;
+        e::note(format!("append child{}", id));
+        if threads_form {
+          shared.append(BoxSubscriptionThreads::new(ChildSub { id }));
+        } else {
+          local.append(BoxSubscription::new(ChildSub { id }));
+        }
+        if unsubscribed && world::counter(30 + id) == 0 {
+          e::fail("composite/late-addition-left-running", || format!("child{} was appended after unsubscribe() and was not unsubscribed", id));
+        }
+      }
+      1 => {
+        e::note("unsubscribe() through a clone".to_string());
+        if threads_form {
+          shared.clone().unsubscribe();
+        } else {
+          local.clone().unsubscribe();
+        }
+        unsubscribed = true;
+        for id in 0..children {
+          if world::counter(30 + id) == 0 {
+            e::fail("composite/child-not-unsubscribed", || format!("unsubscribe() left child{} running", id));
+          }
+        }
+      }
+      2 => {
+        let c = if threads_form { shared.is_closed() } else { local.is_closed() };
+        e::note(format!("is_closed() = {}", c));
+        if closed_seen && !c && !unsubscribed {
+          // before unsubscribe a composite may re-open when something is appended: allowed only
+          // while nothing was ever reported closed *and* then delivered; the property forbids true -> false
+          e::fail("composite/is_closed-went-back-to-false", || "is_closed() returned true and later false".to_string());
+        }
+        if unsubscribed && !c {
+          e::fail("composite/open-after-unsubscribe", || "is_closed() == false on a handle after unsubscribe()".to_string());
+        }
+        if c {
+          closed_seen = true;
+          for id in 0..children {
+            if world::counter(30 + id) == 0 {
+              e::fail("composite/closed-with-live-child", || format!("is_closed() == true while child{} can still deliver", id));
+            }
+          }
+        }
+      }
+      3 => {
+        e::note("retain()".to_string());
+        if threads_form {
+          shared.retain();
+        } else {
+          local.retain();
+        }
+      }
+      _ => {
+        // a child finishes by itself
+        if children == 0 {
+          e::prune();
+        }
+        let id = e::choose(children as u32) as usize;
+        e::note(format!("child{} finishes", id));
+        world::set_counter(30 + id, 1);
+      }
+    }
+  }
+  e::cover("c17-composite-path-complete");
+}
+
+pub fn harnesses_c17() -> Vec<HarnessDef> {
+  vec![
+    HarnessDef { id: "c17_composite", props: vec!["C17"], about: "MultiSubscription: histories of append / unsubscribe (through a clone) / is_closed / retain / child finishes: late additions torn down at once, closed => every child closed, closed is monotone once unsubscribed", bounds: |t| format!("{} operations, 3 children", if t { 7 } else { 5 }), f: Box::new(|t| c17_composite(false, if t { 7 } else { 5 })), budget_quick: 1_000_000, budget_thorough: 20_000_000, thorough_only: false, sampled: true },
+    HarnessDef { id: "c17_composite_threads", props: vec!["C17"], about: "MultiSubscriptionThreads, same histories", bounds: |t| format!("{} operations, 3 children", if t { 7 } else { 5 }), f: Box::new(|t| c17_composite(true, if t { 7 } else { 5 })), budget_quick: 1_000_000, budget_thorough: 20_000_000, thorough_only: false, sampled: true },
+  ]
+}
